@@ -94,17 +94,20 @@ func runC03(c *Ctx) {
 		})
 		r.Check("R03.1", FuncName(fn), "every line is drawn by that one emitter", fn.Pos(), bad == 0 && n >= 6, fmt.Sprintf("%d emitter calls, %d on another emitter", n, bad))
 	}
-	if ms, ok := widths.(*ssa.MakeSlice); ok {
+	if ms0, ok := widths.(*ssa.MakeSlice); ok {
 		ns := 0
-		for _, rr := range referrersOf(ms) {
-			ia, ok := rr.(*ssa.IndexAddr)
-			if !ok {
-				continue
-			}
-			for _, r3 := range referrersOf(ia) {
-				st, ok := r3.(*ssa.Store)
-				if !ok || st.Addr != ssa.Value(ia) {
-					continue
+		for _, site := range sliceStoreSites(ms0, nil, 0) {
+			{
+				st, ia, ms := site.St, site.IA, site.Slice
+				fn := site.Fn
+				p := ix.proverFor(fn)
+				isHeadersResult := func(v ssa.Value) bool {
+					if par, isPar := v.(*ssa.Parameter); isPar {
+						if act, has := site.Bind[par]; has {
+							return isHeadersResult(act)
+						}
+					}
+					return isHeadersResult(v)
 				}
 				ns++
 				// value is a cellWidth field of extracted dimensions
@@ -597,42 +600,44 @@ func runC04(c *Ctx) {
 	checkEffectiveProperty(c, "R04.1", fn, "properties/align", "PropertyType")
 	// the resolved alignment of column i+1 is stored at columnAligns[i]
 	{
-		p := ix.proverFor(fn)
 		ok := false
-		eachInstr(fn, func(in ssa.Instruction) {
-			st, isSt := in.(*ssa.Store)
-			if !isSt {
-				return
-			}
-			ia, isIA := st.Addr.(*ssa.IndexAddr)
-			if !isIA {
-				return
-			}
-			ta, isTA := st.Val.(*ssa.TypeAssert)
-			if !isTA || !isNamed(ta.AssertedType, pkgPath("properties/align"), "Alignment") {
-				return
-			}
-			// ta.X = GetProperty on Column(k): k == index + 1 (or the column-0 default)
-			call := sourceCallOf(ta.X)
-			if call == nil {
-				return
-			}
-			var recv ssa.Value
-			if call.Call.IsInvoke() {
-				recv = call.Call.Value
-			} else {
-				recv = call.Call.Args[0]
-			}
-			if fa, isFA := recv.(*ssa.FieldAddr); isFA {
-				recv = fa.X
-			}
-			if colCall, isC := unwrap(recv, true).(*ssa.Call); isC {
-				k := colCall.Call.Args[len(colCall.Call.Args)-1]
-				if p.linOf(k).String() == p.linOf(ia.Index).add(linConst(1)).String() {
-					ok = true
+		for _, hf := range pkgReach(fn, 2) {
+			p := ix.proverFor(hf)
+			eachInstr(hf, func(in ssa.Instruction) {
+				st, isSt := in.(*ssa.Store)
+				if !isSt {
+					return
 				}
-			}
-		})
+				ia, isIA := st.Addr.(*ssa.IndexAddr)
+				if !isIA {
+					return
+				}
+				ta, isTA := st.Val.(*ssa.TypeAssert)
+				if !isTA || !isNamed(ta.AssertedType, pkgPath("properties/align"), "Alignment") {
+					return
+				}
+				// ta.X = GetProperty on Column(k): k == index + 1 (or the column-0 default)
+				call := sourceCallOf(ta.X)
+				if call == nil {
+					return
+				}
+				var recv ssa.Value
+				if call.Call.IsInvoke() {
+					recv = call.Call.Value
+				} else {
+					recv = call.Call.Args[0]
+				}
+				if fa, isFA := recv.(*ssa.FieldAddr); isFA {
+					recv = fa.X
+				}
+				if colCall, isC := unwrap(recv, true).(*ssa.Call); isC {
+					k := colCall.Call.Args[len(colCall.Call.Args)-1]
+					if p.linOf(k).String() == p.linOf(ia.Index).add(linConst(1)).String() {
+						ok = true
+					}
+				}
+			})
+		}
 		r.Check("R04.1", FuncName(fn), "the alignment of column i+1 is recorded for slot i", fn.Pos(), ok, "")
 	}
 
@@ -1086,4 +1091,74 @@ func spaceRun(v ssa.Value) (ssa.Value, bool) {
 		}
 	}
 	return nil, false
+}
+
+// A store into an element of a slice made by some function, found either in that function or in a helper of the
+// module that was handed the slice (as an out-parameter), up to two calls deep.
+type sliceStoreSite struct {
+	Fn    *ssa.Function
+	St    *ssa.Store
+	IA    *ssa.IndexAddr
+	Slice ssa.Value                    // the slice as Fn names it: the made slice, or Fn's parameter
+	Bind  map[*ssa.Parameter]ssa.Value // Fn's parameters -> the values the outermost function passed for them
+}
+
+func sliceStoreSites(root ssa.Value, bind map[*ssa.Parameter]ssa.Value, depth int) []sliceStoreSite {
+	var out []sliceStoreSite
+	var fn *ssa.Function
+	switch x := root.(type) {
+	case ssa.Instruction:
+		fn = x.Parent()
+	case *ssa.Parameter:
+		fn = x.Parent()
+	}
+	if fn == nil {
+		return nil
+	}
+	seen := map[ssa.Value]bool{}
+	var visit func(v ssa.Value)
+	visit = func(v ssa.Value) {
+		if seen[v] {
+			return
+		}
+		seen[v] = true
+		for _, rr := range referrersOf(v) {
+			switch x := rr.(type) {
+			case *ssa.IndexAddr:
+				if x.X != v {
+					continue
+				}
+				for _, r3 := range referrersOf(x) {
+					if st, ok := r3.(*ssa.Store); ok && st.Addr == ssa.Value(x) {
+						out = append(out, sliceStoreSite{fn, st, x, root, bind})
+					}
+				}
+			case *ssa.Phi:
+				visit(x)
+			case ssa.CallInstruction:
+				cc := x.Common()
+				callee := cc.StaticCallee()
+				if callee == nil || !inModule(callee) || callee.Blocks == nil || depth >= 2 || len(cc.Args) != len(callee.Params) {
+					continue
+				}
+				nb := map[*ssa.Parameter]ssa.Value{}
+				for k, a := range cc.Args {
+					act := a
+					if par, isPar := a.(*ssa.Parameter); isPar && bind != nil {
+						if outer, has := bind[par]; has {
+							act = outer
+						}
+					}
+					nb[callee.Params[k]] = act
+				}
+				for k, a := range cc.Args {
+					if a == v {
+						out = append(out, sliceStoreSites(callee.Params[k], nb, depth+1)...)
+					}
+				}
+			}
+		}
+	}
+	visit(root)
+	return out
 }
